@@ -46,6 +46,9 @@ type Script struct {
 	Offset  int64             `json:"offset,omitempty"`
 	Start   string            `json:"start,omitempty"`
 	Listed  []string          `json:"listed,omitempty"` // backend's repository listing
+	// ListErrAt > 0: the backend's repository listing ends at item ListErrAt-1 by yielding that name
+	// together with an error (a Seq may deliver an item along with its error)
+	ListErrAt int `json:"list_err_at,omitempty"`
 }
 
 type policyErr struct{ n int }
@@ -73,9 +76,13 @@ func run(s Script, v *vt.V) {
 	r.Canned.Descs = []ociregistry.Descriptor{{Digest: "sha256:aaaa", Size: 1}, {Digest: "sha256:bbbb", Size: 2}}
 	var policyCalls []string
 	var reg ociregistry.Interface
+	var backend ociregistry.Interface = r.Registry()
+	if s.Method == "Repositories" && s.ListErrAt > 0 && s.ListErrAt <= len(s.Listed) {
+		backend = &listFault{Interface: backend, names: s.Listed, at: s.ListErrAt - 1}
+	}
 	switch s.Wrapper {
 	case "access":
-		reg = ocifilter.AccessChecker(r.Registry(), func(name string, k ocifilter.AccessKind) error {
+		reg = ocifilter.AccessChecker(backend, func(name string, k ocifilter.AccessKind) error {
 			policyCalls = append(policyCalls, fmt.Sprintf("%s/%d", name, k))
 			if n := s.verdict(name, int(k)); n > 0 {
 				return policyErrs[n]
@@ -83,7 +90,7 @@ func run(s Script, v *vt.V) {
 			return nil
 		})
 	case "select":
-		reg = ocifilter.Select(r.Registry(), func(name string) bool {
+		reg = ocifilter.Select(backend, func(name string) bool {
 			return s.verdict(name, kRead) == 0
 		})
 	default:
@@ -139,6 +146,7 @@ func run(s Script, v *vt.V) {
 	var gotList []string
 	var gotDescs []ociregistry.Descriptor
 	listCalls, listErrs := 0, 0
+	withErr := "" // the item delivered together with the error that ended a listing
 	collectS := func(it ociregistry.Seq[string]) {
 		done := false
 		it(func(x string, err error) bool {
@@ -151,6 +159,7 @@ func run(s Script, v *vt.V) {
 				gotErr = err
 				listErrs++
 				done = true
+				withErr = x
 				return false
 			}
 			gotList = append(gotList, x)
@@ -211,6 +220,23 @@ func run(s Script, v *vt.V) {
 		})
 	default:
 		v.Failf("harness", "unknown method")
+		return
+	}
+	if lf, ok := backend.(*listFault); ok && !rejected {
+		// the backend's listing broke off: the consumer learns about the error, has seen only
+		// names the policy shows, and is not handed a hidden name along with the error either
+		v.Class("%s/Repositories/listing-fault", s.Wrapper)
+		if gotErr == nil {
+			v.Failf("listing-error-lost", "%s: the backend's listing failed at item %d but the wrapper's listing ended without an error after %v", s.Wrapper, lf.at, gotList)
+			return
+		}
+		for _, name := range append(append([]string{}, gotList...), withErr) {
+			if name != "" && s.verdict(name, kRead) != 0 {
+				v.Failf("listing-filter", "%s: the listing (which ended with the backend's error) handed out %q, which the policy hides (items %v, item delivered with the error %q)", s.Wrapper, name, gotList, withErr)
+				return
+			}
+		}
+		v.NonTrivial(fmt.Sprintf("%s|listfault|%v|%v|%v|%d", s.Wrapper, s.Policy, s.Default, s.Listed, lf.at))
 		return
 	}
 	calls := r.Calls()
@@ -338,6 +364,29 @@ func run(s Script, v *vt.V) {
 	_ = io.EOF
 }
 
+var errListing = errors.New("the backend's listing broke off")
+
+// listFault makes the backend's repository listing end with (names[at], error).
+type listFault struct {
+	ociregistry.Interface
+	names []string
+	at    int
+}
+
+func (l *listFault) Repositories(ctx context.Context, startAfter string) ociregistry.Seq[string] {
+	return func(yield func(string, error) bool) {
+		for i, n := range l.names {
+			if i == l.at {
+				yield(n, errListing)
+				return
+			}
+			if !yield(n, nil) {
+				return
+			}
+		}
+	}
+}
+
 var names = []string{"a", "b", "a/b", "c", "", "../a"}
 
 func genScript(t *rapid.T) Script {
@@ -377,6 +426,9 @@ func genScript(t *rapid.T) Script {
 	if s.Method == "Repositories" {
 		s.Listed = rapid.SliceOfNDistinct(rapid.SampledFrom([]string{"a", "a/b", "b", "c", "d", "e/f", "*"}), 0, 6, func(x string) string { return x }).Draw(t, "listed")
 		sort.Strings(s.Listed)
+		if len(s.Listed) > 0 && rapid.IntRange(0, 3).Draw(t, "listFault") == 0 {
+			s.ListErrAt = rapid.IntRange(1, len(s.Listed)).Draw(t, "listErrAt")
+		}
 	}
 	return s
 }
@@ -384,7 +436,7 @@ func genScript(t *rapid.T) Script {
 var prop = &vt.Prop[Script]{
 	ID:   "C12",
 	Name: "FilterWrappersRandomPolicies",
-	Rule: "wrapper in {AccessChecker, Select}; policy = random table (repository name, access kind) -> allow | one of three distinct errors, with a default row (pure function; Select's depends on the name only); method = each of the 18 Interface methods with repositories from {a, b, a/b, c, the empty name, '../a'} (the policy is asked about whatever name the caller passes; mount: source and target, incl. the same repository), resume ids {empty, opaque, shaped like the upload location of each repository} x offsets {-1,0,1,100}, listing start points, backend repository listings incl. a repository named '*'; recording backend that accepts everything; oracle = policy rejects => zero backend calls, the policy's own error (Select: name-unknown for read/list/delete, denied for write), no data; policy allows => exactly one backend call with the caller's context and arguments, the backend's own reader/writer/results (writers are used: Write+Commit must land in the backend's session); repository listings = backend's list filtered by the read verdict; non-trivial = some involved repository is rejected, or a listing is filtered; distinct = (wrapper, method, policy, arguments)",
+	Rule: "wrapper in {AccessChecker, Select}; policy = random table (repository name, access kind) -> allow | one of three distinct errors, with a default row (pure function; Select's depends on the name only); method = each of the 18 Interface methods with repositories from {a, b, a/b, c, the empty name, '../a'} (the policy is asked about whatever name the caller passes; mount: source and target, incl. the same repository), resume ids {empty, opaque, shaped like the upload location of each repository} x offsets {-1,0,1,100}, listing start points, backend repository listings incl. a repository named '*'; recording backend that accepts everything; oracle = policy rejects => zero backend calls, the policy's own error (Select: name-unknown for read/list/delete, denied for write), no data; policy allows => exactly one backend call with the caller's context and arguments, the backend's own reader/writer/results (writers are used: Write+Commit must land in the backend's session); repository listings = backend's list filtered by the read verdict; a backend listing that breaks off by yielding a name together with an error reaches the consumer as an error without any hidden name; non-trivial = some involved repository is rejected, or a listing is filtered; distinct = (wrapper, method, policy, arguments)",
 	Gen:  genScript,
 	Run:  run,
 }
